@@ -40,6 +40,7 @@ SHAPES = [
     ("parser_error_enum", "varlink_parser/src/lib.rs", r"pub enum Error \{", ["C09", "C12"]),
     ("format_rs", "varlink_parser/src/format.rs", None, ["C10"]),
     ("generator_lib", "varlink_generator/src/lib.rs", None, ["C08", "C09"]),
+    ("derive_lib", "varlink_derive/src/lib.rs", None, ["C08", "C09"]),
     ("cli_main", "varlink-cli/src/main.rs", None, ["C18", "C20"]),
     ("cli_proxy", "varlink-cli/src/proxy.rs", None, ["C18"]),
     ("cli_watchclose", "varlink-cli/src/watchclose_epoll.rs", None, ["C18"]),
